@@ -46,6 +46,7 @@ Spellings ==
           r \in {10, 16}, u \in BOOLEAN, s \in {"", "own"}}                                              \* "0x5", "1_0", "5u8"
   \cup {[quoted |-> FALSE, radix |-> r, under |-> u, suffix |-> s, plus |-> FALSE] :
           r \in {10, 16, 8, 2}, u \in BOOLEAN, s \in {"", "own", "other"}}
+  \cup {[quoted |-> FALSE, radix |-> 10, under |-> u, suffix |-> "float", plus |-> FALSE] : u \in BOOLEAN}   \* 5f32: an integer literal all the same
 
 VARIABLES t, v, sp, res
 vars == <<t, v, sp, res>>
